@@ -15,7 +15,8 @@ RULE = ('geometry recipes (gens/geo.py): rectangular (drawn spacings, origins up
         'Oracle: independent enumeration of blocks and connections from public geometry attributes and independent '
         'geometry (exact-rational shoelace area, perpendicular distance by cross product). '
         'Non-trivial = at least one truncated or extended surface block, or a non-rectangular mesh; distinct = recipe JSON.'
-        ' Also: convert - translate / rotate the same geometry object - convert again (second grid judged against the geometry as it then is).')
+        ' Also: convert - translate / rotate the same geometry object - convert again (second grid judged against the geometry as it then is).'
+        ' Rounds 7-10: copy_layers_from a structure with another top (recipe op relayer); block maps that swap / cycle / chain block names; FEET geometries; untidy vertical shifts; the bottom layer dropped with the raw mutator; atmosphere type set through the property; a column named like the reserved atmosphere column.')
 ASSUMPTIONS = ['untilted geometries (gdcx = gdcy = None), as in the statement\'s -1 clause',
                'every column surface lies above the bottom of the model',
                'relative tolerance 1e-9 (1e-7 for areas of columns with 7-digit coordinates, where the library\'s float shoelace is the less exact side)']
